@@ -34,7 +34,7 @@ def describe(rep):
         rep.func(c02.SWEEPERS[k].update_nodes, c02.SWEEPERS[k].integrate, c02.SWEEPERS[k].compute_end_point)
     rep.explanation = __doc__
     rep.rule = ('case = one execution path of a whole run (which step stopped at which iteration) of one configuration; non-trivial = at least one step '
-                'stopped by tolerance, so that a collocation obligation was discharged')
+                'stopped by tolerance, so that a collocation obligation was discharged; runs from t0 = 0 and from t0 != 0, with the clause that the k-th accepted step covers [t0 + k dt, t0 + (k+1) dt]')
     rep.assume('linear problems u\' = A u with exact rational solves (scalar/vector Dahlquist, FD heat and advection matrices built by the real helper)',
                'reals for floats', 'identity (injection) space transfer between levels; coarsening in the collocation nodes',
                'initial value in [-1, 1]^n', 'c = 1.01 * max abs row sum of the last-node rows of (I - dt Q x A)^-1 (computed in floats, 1 % margin)',
